@@ -305,7 +305,11 @@ func (rn *runner) compute(ctx context.Context) (interface{}, error) {
 		if d < 0 {
 			d = time.Duration(rn.comp.ExpireMs+1) * time.Millisecond // -1: already expired (0), -2: in the past
 		}
-		reactive.InvalidateAfter(ctx, d)
+		if rn.comp.ExpireMs%2 == 0 {
+			reactive.InvalidateAt(ctx, time.Now().Add(d)) // the same thing, spelled with an instant
+		} else {
+			reactive.InvalidateAfter(ctx, d)
+		}
 	}
 	seen := map[int]int{}
 	fire := func(at int, after bool) {
